@@ -24,7 +24,8 @@ def maxMessageSize : Nat := stream.MaxMessageSize
 def frameThreshold : Nat := stream.DefaultFrameThreshold
 def headerSize : Nat := stream.NormalHeaderSize
 /-- GCM tag length and transmitted-IV length: the two literals `16` in
-    `calculateEncryptedSize` (regenerated into CedarGen.Tables by tools/gen). -/
+    `calculateEncryptedSize` (tied to the source by `C12.size_literals_are_the_code` over the
+    regenerated `CedarGen.Literals`). -/
 def tagLen : Nat := 16
 def ivLen : Nat := 16
 def maxEndFlag : Nat := 10
